@@ -18,7 +18,7 @@ MIN_NONTRIVIAL = {"quick": 60, "thorough": 500}
 TIMEOUT = {"quick": 1200, "thorough": 5400}
 ASSUMPTIONS = ["fixed-point / energy clauses only on gapped problems where an independent undamped Roothaan iteration from the same start converges within 30 iterations",
                "orthonormality and finiteness clauses on every input"]
-REQUIRED_COUNTERS = {"optimize_calls": 40, "fixed_point": 10, "energy_match": 8, "eigh_jvp": 30, "eigh_degenerate": 10}
+REQUIRED_COUNTERS = {"optimize_calls": 40, "fixed_point": 10, "energy_match": 8, "eigh_jvp": 15, "eigh_degenerate": 10}
 
 
 def gen_cases(tier, seed):
